@@ -1,7 +1,7 @@
 CHECK = {
     "level": "exploration",
     "engine": "http-envelope",
-    "technique": "runtime monitor over the real handlers and the real client: PRNG value trees, error kinds/codes and callbacks are served into an httptest.ResponseRecorder and by a loopback httptest.Server read back with the library's ApiRequest; bodies are parsed independently with encoding/json and compared as JSON-normalised trees (expected data = encoding/json's own rendering of the value)",
+    "technique": "runtime monitor over the real handlers and the real client: PRNG value trees, error kinds/codes (a third of the application/status errors with a Cause()/Unwrap() chain ending in an error of another kind and code) and callbacks are served into an httptest.ResponseRecorder and by a loopback httptest.Server read back with the library's ApiRequest; bodies are parsed independently with encoding/json and compared as JSON-normalised trees (expected data = encoding/json's own rendering of the value)",
     "level_text": "Held on the executions observed: thousands (quick) to hundreds of thousands (thorough) of generated responses, every one checked on the recorder and every second one over a real loopback connection through ApiRequest or a plain GET; counters show how many successes the client read back as code 0, how many errors it reported, JSONP bodies unwrapped, coded errors matched, plain-error statuses matched, unmarshalable values answered with an error status and values containing invalid UTF-8. Not a proof; value shapes, codes and callbacks outside the generators are not covered.",
     "level_note": "Trusts encoding/json (both as the parser of the bodies and as the definition of the JSON form of a value), net/http and httptest. The client's returned code is only required to be non-zero with an error, not to be identical (it travels through float64); Content-Type is compared as a media type; the status of coded errors and the text of plain errors are not asserted (DESIGN 4.1); a coded error answered to a request with a callback must be callback(json) with the JavaScript content type (DESIGN 7.7). Plain errors whose message is itself a JSON text have their own signature scope (:json-message).",
     "parts": [
